@@ -1,6 +1,6 @@
 (* Facts about the REGENERATED mir2c template table (coq/gen/Mir2cTable.v). *)
 From Coq Require Import ZArith Bool List String.
-From MirV Require Import Base.W64 Mir.DocSpec Mir.CExpr C02.RowCheck C02.Table C20.Mir2cCheck C20.ConstPrint gen.Mir2cTable.
+From MirV Require Import Base.W64 Mir.DocSpec Mir.CExpr C02.RowCheck C02.Table C20.Mir2cCheck C20.ConstPrint C20.AddrPrint gen.Mir2cTable.
 Import ListNotations.
 
 Lemma mir2c_table_ok : m2c_table_ok mir2c_table = true.
@@ -37,3 +37,23 @@ Proof.
   rewrite forallb_forall in H. specialize (H (op, l) Hin). cbn [snd] in H.
   rewrite forallb_forall in H. exact (H s Hs).
 Qed.
+
+(* ---- memory operands: the regenerated address expressions compute disp + base + index * scale for every form, every
+   form has a row, the C type named for every memory type loads / stores as documented *)
+Lemma mir2c_addr_table_ok : addr_table_ok mir2c_disp_fmt mir2c_addr_table = true.
+Proof. vm_compute. reflexivity. Qed.
+
+Lemma mir2c_addr_rows_sound : forall f e, In (f, e) mir2c_addr_table -> addr_row_sound mir2c_disp_fmt f e.
+Proof. exact (addr_table_ok_sound mir2c_disp_fmt mir2c_addr_table mir2c_addr_table_ok). Qed.
+
+Lemma mir2c_addr_rows_total : forall d b i s, In s scales ->
+  exists e, In ({| af_disp := d; af_base := b; af_index := i; af_scale := s |}, e) mir2c_addr_table.
+Proof. exact (addr_table_ok_total mir2c_disp_fmt mir2c_addr_table mir2c_addr_table_ok). Qed.
+
+Lemma mir2c_memtype_table_ok : memtype_table_ok mir2c_memtype_table = true.
+Proof. vm_compute. reflexivity. Qed.
+
+Lemma mir2c_memtypes_sound : forall ty, exists mt, In (ty, mt) mir2c_memtype_table
+    /\ (forall bytes, stmt_load (SLoad (reg_cty ty) mt) bytes = Some (load_ext ty bytes))
+    /\ (forall p rest, stmt_store (p :: rest) (SStore mt (EVar 0 (reg_cty ty))) = Some (store_trunc ty p)).
+Proof. exact (memtype_table_ok_sound mir2c_memtype_table mir2c_memtype_table_ok). Qed.
